@@ -728,7 +728,9 @@ func (cc *Conn) checkMyMessageID(req *pool.Message) {
 			if pkgMath.CastTo[uint16](req.MessageID())-pkgMath.CastTo[uint16](cc.msgID.Load()) >= 0xffff/4 {
 				return
 			}
-			newID := oldID + 0xffff/2
+			// half of the ID space exactly: two such jumps bring the counter back to where it would
+			// have been without them; with 0xffff/2 they set it back by 2, onto IDs used a moment ago
+			newID := oldID + 0x10000/2
 			if cc.msgID.CompareAndSwap(oldID, newID) {
 				break
 			}
